@@ -496,6 +496,21 @@ impl<'c> Rw<'c> {
 impl<'c> VisitMut for Rw<'c> {
     fn visit_block_mut(&mut self, b: &mut syn::Block) {
         // D1: drop log statements and debug assertions
+        // G6 (let-bound form): `let g = <..>.lock().await;` followed, in the same block and before an explicit `drop(g)`, by an await
+        if !self.cx.unit.guards.is_empty() {
+            let guards = self.cx.unit.guards.clone();
+            fn awaits_stmt(st: &Stmt) -> bool { struct A(bool); impl<'b> Visit<'b> for A { fn visit_expr_await(&mut self, _: &'b syn::ExprAwait) { self.0 = true; } fn visit_expr_closure(&mut self, _: &'b syn::ExprClosure) {} fn visit_expr_async(&mut self, _: &'b syn::ExprAsync) {} } let mut a = A(false); a.visit_stmt(st); a.0 }
+            let n = b.stmts.len();
+            for i in 0..n {
+                let (name, is_guard) = match &b.stmts[i] { Stmt::Local(l) => { let nm = match &l.pat { syn::Pat::Ident(pi) => Some(pi.ident.to_string()), syn::Pat::Type(pt) => if let syn::Pat::Ident(pi) = &*pt.pat { Some(pi.ident.to_string()) } else { None }, _ => None };
+                        let g = l.init.as_ref().map(|init| { let mut x: &Expr = &init.expr; if let Expr::Await(a) = x { x = &a.base; } matches!(x, Expr::MethodCall(m) if guards.contains(&m.method.to_string())) }).unwrap_or(false); (nm, g) } _ => (None, false) };
+                if !is_guard { continue; }
+                let Some(name) = name else { continue; };
+                let mut held_across = false;
+                for j in i + 1..n { let txt = nospace(&b.stmts[j].to_token_stream().to_string()); if txt.starts_with(&format!("drop({})", name)) { break; } if awaits_stmt(&b.stmts[j]) { held_across = true; break; } }
+                if held_across { if let Stmt::Local(l) = &mut b.stmts[i] { if let Some(init) = &mut l.init { let x = (*init.expr).clone(); if !nospace(&x.to_token_stream().to_string()).starts_with("hx_guard_held_across_await(") { init.expr = Box::new(parse_quote!(hx_guard_held_across_await(#x))); self.cx.fire("G6"); } } } }
+            }
+        }
         let mut kept0: Vec<Stmt> = vec![];
         for st in std::mem::take(&mut b.stmts) {
             let mac = match &st { Stmt::Macro(m) if is_dropped_macro(&m.mac) => Some(m.mac.clone()), Stmt::Expr(Expr::Macro(m), _) if is_dropped_macro(&m.mac) => Some(m.mac.clone()), _ => None };
@@ -559,6 +574,22 @@ impl<'c> VisitMut for Rw<'c> {
 
     fn visit_expr_mut(&mut self, e: &mut Expr) {
         // ---------------- pre-order ----------------
+        // G6: a lock guard that is a temporary of an `if let` / `match` / `while let` scrutinee lives for the whole statement; if the
+        // arms await anything the lock is held across that await. The scrutinee is routed through `hx_guard_held_across_await`,
+        // whose precondition is the obligation (never satisfiable: the shape itself is the defect)
+        if !self.cx.unit.guards.is_empty() {
+            let guards = self.cx.unit.guards.clone();
+            let has_guard = |x: &Expr| -> bool { struct F<'a>(&'a BTreeSet<String>, bool); impl<'a, 'b> Visit<'b> for F<'a> { fn visit_expr_method_call(&mut self, m: &'b syn::ExprMethodCall) { if self.0.contains(&m.method.to_string()) { self.1 = true; } syn::visit::visit_expr_method_call(self, m); } fn visit_expr_closure(&mut self, _: &'b syn::ExprClosure) {} fn visit_expr_async(&mut self, _: &'b syn::ExprAsync) {} } let mut f = F(&guards, false); f.visit_expr(x); f.1 };
+            fn awaits_block(b: &syn::Block) -> bool { struct A(bool); impl<'b> Visit<'b> for A { fn visit_expr_await(&mut self, _: &'b syn::ExprAwait) { self.0 = true; } fn visit_expr_closure(&mut self, _: &'b syn::ExprClosure) {} fn visit_expr_async(&mut self, _: &'b syn::ExprAsync) {} } let mut a = A(false); a.visit_block(b); a.0 }
+            fn awaits_expr(x: &Expr) -> bool { struct A(bool); impl<'b> Visit<'b> for A { fn visit_expr_await(&mut self, _: &'b syn::ExprAwait) { self.0 = true; } fn visit_expr_closure(&mut self, _: &'b syn::ExprClosure) {} fn visit_expr_async(&mut self, _: &'b syn::ExprAsync) {} } let mut a = A(false); a.visit_expr(x); a.0 }
+            let already = |x: &Expr| nospace(&x.to_token_stream().to_string()).starts_with("hx_guard_held_across_await(");
+            match e {
+                Expr::If(i) => { if let Expr::Let(l) = &mut *i.cond { if has_guard(&l.expr) && !already(&l.expr) && (awaits_block(&i.then_branch) || i.else_branch.as_ref().map(|(_, b)| awaits_expr(b)).unwrap_or(false)) { let x = (*l.expr).clone(); l.expr = Box::new(parse_quote!(hx_guard_held_across_await(#x))); self.cx.fire("G6"); } } }
+                Expr::While(wl) => { if let Expr::Let(l) = &mut *wl.cond { if has_guard(&l.expr) && !already(&l.expr) && awaits_block(&wl.body) { let x = (*l.expr).clone(); l.expr = Box::new(parse_quote!(hx_guard_held_across_await(#x))); self.cx.fire("G6"); } } }
+                Expr::Match(m) => { if has_guard(&m.expr) && !already(&m.expr) && m.arms.iter().any(|a| awaits_expr(&a.body)) { let x = (*m.expr).clone(); m.expr = Box::new(parse_quote!(hx_guard_held_across_await(#x))); self.cx.fire("G6"); } }
+                _ => {}
+            }
+        }
         if let Expr::Macro(m) = e {
             if is_select(&m.mac) { if let Some(n) = self.select_to_match(&m.mac) { *e = n; } }
             else if is_panic(&m.mac) { self.cx.fire("M1"); *e = if self.cx.unit.panic_forbidden { parse_quote!(vpanic_forbidden()) } else { parse_quote!(vpanic()) }; }
